@@ -118,8 +118,9 @@ class Ctx:
             for k in acc:
                 out[k] = None
             if not r.ok:
-                raise MachineryError('trace validation run failed (%s): %s\n%s'
-                                     % (module, r.violated, r.output[-3000:]))
+                k = r.output.find('Error:')
+                raise MachineryError('trace validation run failed (%s): %s\n%s\n...\n%s'
+                                     % (module, r.violated, r.output[max(0, k):k + 1500], r.output[-800:]))
             missing = [t['id'] for t in chunk if t['id'] not in out]
             if missing:
                 raise MachineryError('trace validation gave no verdict for ids %s (%s)\n%s'
